@@ -385,7 +385,8 @@ impl Model {
 
         let items_consumed = self.item_pool.num_not_taken() == 0;
         let reader_stopped = self.reader_control.as_ref().map(|c| c.is_done()).unwrap_or(true);
-        let matcher_stopped = self.matcher_control.as_ref().map(|ctrl| ctrl.stopped()).unwrap_or(true);
+        // a finished matcher whose results are not yet harvested (see act_heart_beat) is not done
+        let matcher_stopped = self.matcher_control.is_none();
 
         let processed = reader_stopped && items_consumed && matcher_stopped;
         let num_matched = self.selection.get_num_options();
